@@ -1295,7 +1295,7 @@ fn zero_rtt(rep: &mut Report, rng: &mut Rng, shard: u64, shards: u64, random: u6
     let mut idx = 0u64;
     for id in ZRTT_IDS {
         let lo = if id == 0x0e { 2 } else { 0 };
-        let hi = if id == 0x08 || id == 0x09 { P60 } else { VMAX };
+        let hi = if id == 0x08 || id == 0x09 { P60 - 1 } else { VMAX };
         let vals: Vec<Option<u64>> = vec![None, Some(lo), Some(lo + 1), Some(3), Some(100), Some(101), Some(1 << 20), Some(hi - 1), Some(hi)];
         for a in &vals {
             for b in &vals {
@@ -1307,7 +1307,7 @@ fn zero_rtt(rep: &mut Report, rng: &mut Rng, shard: u64, shards: u64, random: u6
                 let mut ov = vec![(id, *a)];
                 let mut nv = vec![(id, *b)];
                 for other in ZRTT_IDS.iter().filter(|x| **x != id) {
-                    let base = legal_value(rng, *other).min(P60 - 1).max(2);
+                    let base = legal_value(rng, *other).min(P60 - 2).max(2);
                     ov.push((*other, Some(base)));
                     nv.push((*other, Some(base + rng.below(2))));
                 }
